@@ -547,9 +547,21 @@ impl World {
                 }
             }));
             if !iso_heads.is_empty() {
-                evs.push(step(&mut ac, "isolate", &mut rng, &mut |ac, _| ac.isolate(&iso_heads)));
+                // C29 through AutoCommit: isolate(H) shows the state at H (= the historical read at H); after
+                // integrate() the document is the un-isolated document plus the changes made inside
+                let at_heads = proj::view(&ac, Some(&iso_heads));
+                let before_changes: Vec<ChangeHash> = ac.get_changes(&[]).iter().map(|c| c.hash()).collect();
+                let mut plain = ac.document().clone();
+                let mut e1 = step(&mut ac, "isolate", &mut rng, &mut |ac, _| ac.isolate(&iso_heads));
+                e1["want"] = at_heads;
+                evs.push(e1);
                 evs.push(step(&mut ac, "isolated-edits", &mut rng, &mut |ac, rng| { edits(ac, rng); ac.commit_with(CommitOptions::default().with_time(0)); }));
-                evs.push(step(&mut ac, "integrate", &mut rng, &mut |ac, _| ac.integrate()));
+                let mut e3 = step(&mut ac, "integrate", &mut rng, &mut |ac, _| ac.integrate());
+                let added: Vec<automerge::Change> = ac.get_changes(&[]).into_iter().filter(|c| !before_changes.contains(&c.hash())).collect();
+                e3["deps_ok"] = json!(added.iter().all(|c| c.deps().iter().all(|d| iso_heads.contains(d) || added.iter().any(|x| x.hash() == *d))));
+                let _ = plain.apply_changes(added);
+                e3["want"] = proj::view(&plain, None);
+                evs.push(e3);
             }
             // load with a patch log: the patches build the document from nothing
             let saved = ac.save();
